@@ -47,6 +47,35 @@ D4_EXCLUDE = ('include/yaclib/fault/detail/fiber/thread_local_proxy.hpp', 'src/f
               'include/yaclib/fault/detail/fiber/execution_context.hpp')
 
 
+def first_targ(t):
+    """first top-level template argument of a type string"""
+    i = t.find('<')
+    if i < 0:
+        return ''
+    depth = 0
+    out = []
+    for c in t[i + 1:]:
+        if c == '<':
+            depth += 1
+        elif c == '>':
+            if depth == 0:
+                break
+            depth -= 1
+        elif c == ',' and depth == 0:
+            break
+        out.append(c)
+    return ''.join(out).strip()
+
+
+def pointer_in_key(t):
+    """ordered / associative container (or priority queue) whose ordering key contains a pointer"""
+    m = re.match(r'(const )?std::(map|set|multimap|multiset|unordered_map|unordered_set|unordered_multimap|'
+                 r'unordered_multiset|priority_queue)<', t)
+    if not m:
+        return False
+    return '*' in first_targ(t)
+
+
 def in_fault(f, root):
     r = facts.rel(f.file) if not f.file.startswith(root) else os.path.relpath(f.file, root)
     return any(r.startswith(p) for p in FAULT_PREFIXES), r
@@ -236,7 +265,7 @@ def run(ctx):
                 ctx.report(d4, 'D4 %s %s' % (f.qn, bad), f.loc(n), 'decision code %s: the outcome depends on addresses, '
                            'which differ between runs and processes' % bad, 'function: ' + f.full[:200])
         for l in f.locals:
-            if re.search(r'std::(map|set|multimap|multiset|unordered_map|unordered_set)<[^,<>]*\*', l['t']):
+            if pointer_in_key(l['t']):
                 ctx.report(d4, 'D4 %s container keyed by pointer' % f.qn, f.where,
                            'an associative container keyed by a pointer (%s)' % l['t'][:80])
     for rec in fb.records.values():
@@ -245,7 +274,7 @@ def run(ctx):
             continue
         for fl in rec.fields:
             ctx.instance(d4, 'D4 field %s::%s' % (rec.qn, fl['n']), None)
-            if re.search(r'std::(map|set|multimap|multiset|unordered_map|unordered_set)<[^,<>]*\*\s*,', fl['t'] + ','):
+            if pointer_in_key(fl['t']):
                 ctx.report(d4, 'D4 field %s::%s keyed by pointer' % (rec.qn, fl['n']),
                            '%s:%d' % (rr, rec.line), 'an associative container keyed by a pointer (%s): its order '
                            'depends on addresses' % fl['t'][:80])
@@ -278,10 +307,12 @@ def run(ctx):
     if sched is None:
         ctx.broken('record yaclib::fault::Scheduler not found')
     sl = [fl for fl in sched.fields if fl['n'] == '_sleep_list']
-    if not sl or not re.match(r'std::map<unsigned long,', sl[0]['t']):
+    if not sl:
+        ctx.broken('Scheduler::_sleep_list not found')
+    if 'std::unordered_' in sl[0]['t']:
         ctx.report(d5, 'D5 Scheduler::_sleep_list', 'include/yaclib/fault/detail/fiber/scheduler.hpp',
-                   'sleeping fibers are not kept in an ordered map keyed by virtual time (%s)' %
-                   (sl[0]['t'][:80] if sl else 'field missing'))
+                   'sleeping fibers are kept in a hash container (%s): wake-up order depends on the hash order' %
+                   sl[0]['t'][:80])
 
     # ---------------------------------------------------------------- D6
     inj = fb.records.get('yaclib::detail::Injector')
